@@ -301,6 +301,15 @@ class CExecPyObj(CExecL3):
                 st.path.append(z3.And(blen(o) >= 0, blen(o) < 2 ** 62))
             self.assumptions.add("PyBytes_AS_STRING(o) points to len(o) + 1 readable chars (the contents and a terminating NUL)")
             return Ptr(ty, oname, z3.IntVal(0))
+        if name == "PyLong_AsDouble":
+            o = self.oid(self.ev(st, argn[0]))
+            self.oblige(st, "pre", "PyLong_AsDouble.argument_is_an_int", is_long(o), n)
+            from .cfe import nearest_fp
+            ok = self.fresh("aslongdouble_ok", z3.BoolSort())
+            self.assumptions.add("PyLong_AsDouble(o) returns the double nearest to the int (the shared int->double function), or -1.0 with "
+                                 "OverflowError when the int is too large for a double")
+            st.err = z3.If(ok, st.err, z3.IntVal(ERRS["OverflowError"]))
+            return CV(ty, z3.If(ok, nearest_fp(intval(o)), z3.FPVal(-1.0, z3.Float64())))
         if name == "PyFloat_AS_DOUBLE":
             o = self.oid(self.ev(st, argn[0]))
             self.oblige(st, "pre", "PyFloat_AS_DOUBLE.argument_is_a_float", is_float(o), n)
@@ -367,6 +376,17 @@ class CExecPyObj(CExecL3):
             if len(ops) == 1 and list(ops)[0] in PYNUMBER:
                 return self.generic_call(st, PYNUMBER[list(ops)[0]], n["inner"][1:], n)
             raise OutOfSubset("conditional call of %s" % names)
+        if callee["kind"] == "MemberExpr" and callee.get("name", "") == "tp_richcompare":
+            # PyFloat_Type.tp_richcompare(a, b, op): CPython's own comparison of these two objects
+            args = [self.ev(st, a) for a in n["inner"][1:]]
+            a, b = self.oid(args[0]), self.oid(args[1])
+            rid = richcmp_obj(a, b, args[2].t)
+            st.path.append(rid >= 0)
+            e2 = self.fresh("err_after_richcmp")
+            st.path.append(z3.Implies(rid >= 1, e2 == st.err))
+            st.err = e2
+            self.assumptions.add("a type's tp_richcompare slot is CPython's own comparison (result object, or NULL with an exception)")
+            return Ptr(node_type(n), "pyobj", rid)
         if callee["kind"] == "MemberExpr" and callee.get("name", "") in NB_SLOTS:
             # PyLong_Type.tp_as_number->nb_xxx(a, b): CPython's own int implementation of the operator
             return self.generic_call(st, NB_SLOTS[callee["name"]], n["inner"][1:], n)
